@@ -59,6 +59,18 @@ def main():
            "wall_s": round(time.time() - t0), "changes": out,
            "all_caught_by_own_check": all(v["own_check_caught"] for v in out.values() if not v.get("reclassified_not_a_violation")),
            "reclassified_not_a_violation": sorted(k for k, v in out.items() if v.get("reclassified_not_a_violation"))}
+    target = os.path.join(VERIF, "seeded", "SWEEP.seed%s.json" % seed if seed else "SWEEP.json")
+    if only and "--merge" in args and os.path.exists(target):
+        # re-run of some changes after a check was extended: fold the new entries into the recorded sweep
+        old = json.load(open(target))
+        old["changes"].update(out)
+        out = old["changes"]
+        res["changes"] = out
+        res["wall_s"] = old.get("wall_s", 0) + res["wall_s"]
+        res["all_caught_by_own_check"] = all(v["own_check_caught"] for v in out.values() if not v.get("reclassified_not_a_violation"))
+        res["reclassified_not_a_violation"] = sorted(k for k, v in out.items() if v.get("reclassified_not_a_violation"))
+        res["merged_rerun_of"] = sorted(set(old.get("merged_rerun_of", [])) | set(only))
+        only = []
     if not only:
         with open(os.path.join(VERIF, "seeded", "SWEEP.seed%s.json" % seed if seed else "SWEEP.json"), "w") as fh:
             json.dump(res, fh, indent=1)
